@@ -238,6 +238,7 @@ func checkC12(r *Run) {
 	r.Rule("C12.R2.direction", "the local record is overwritten (or sent back) only across an edge that proves it is missing or less advanced than the other side's, with the received/local roles as stated", 4)
 	r.Rule("C12.R2.exchange", "ack merges the peer's records on every path; ack2 merges; the sync handler returns sync's answer; GossipOnceWith feeds the peer's ack to ack", 4)
 	r.Rule("C12.R4.restart", "cluster.Open restarts the host heartbeat on every path that found persisted state, and on every success path from there the state is flushed synchronously (goFlushStore's FlushSync of CopyState()) afterwards: the new generation is on disk before Open returns", 3)
+	r.Rule("C12.R2.complete", "gossip.sync compares every received digest with the local record (no digest is skipped before the comparison) and, on every path, runs the pass that volunteers the members the initiator sent no digest for", 2)
 	r.Rule("C12.R3.order", "Heartbeat.OlderThan is the strict lexicographic (Generation, Version) order, YoungerThan its mirror; Restart bumps Generation and zeroes Version", 3)
 
 	scope := func(fn *FuncNode) bool { return fn.InPkgs("aspen/internal/cluster", "x/store") }
@@ -297,6 +298,7 @@ func checkC12(r *Run) {
 	checkMergeDirection(r, p)
 	checkExchange(r, p)
 	checkRestartPersisted(r, p)
+	checkSyncComplete(r, p)
 
 	// ---- R3
 	older := p.Func(versionPkg, "Heartbeat", "OlderThan")
@@ -797,4 +799,77 @@ func checkRestartPersisted(r *Run, p *Prog) {
 		}
 	}
 	r.ObPath("C12.R4.restart", "Cluster.goFlushStore flushes CopyState() synchronously when storage is configured", p.Position(flush.Pos()), bad == "" && len(noStorage) > 0, "goFlushStore can return with storage configured without a synchronous FlushSync(ctx, c.CopyState())", path)
+}
+
+// checkSyncComplete decides C12.R2.complete on gossip.sync.
+func checkSyncComplete(r *Run, p *Prog) {
+	fn := p.Func(gossipPkg, "Gossip", "sync")
+	if fn == nil {
+		r.Undecide("C12.R2.complete: gossip.Gossip.sync not found")
+		return
+	}
+	msg := paramObj(fn, 0)
+	c := p.CFG(fn)
+	var digLoop, volLoop *ast.RangeStmt
+	inspectNoLit(fn.Body, func(x ast.Node) bool {
+		rng, ok := x.(*ast.RangeStmt)
+		if !ok {
+			return true
+		}
+		if f, ok := isFieldOfObj(fn, rng.X, msg); ok && f == "Digests" && digLoop == nil {
+			digLoop = rng
+		} else if sel, ok := ast.Unparen(rng.X).(*ast.SelectorExpr); ok && sel.Sel.Name == "Nodes" && volLoop == nil {
+			volLoop = rng
+		}
+		return true
+	})
+	if digLoop == nil || volLoop == nil {
+		r.Undecide("C12.R2.complete: the digest loop / volunteer loop of sync were not found")
+		return
+	}
+	// (a) the volunteer pass runs on every path to a return
+	isVol := func(n ast.Node) bool {
+		e, ok := n.(ast.Expr)
+		return ok && e == volLoop.X
+	}
+	q, vis := c.ReachAvoiding([]Point{c.Entry()}, nil, isVol)
+	var path []string
+	for _, ex := range c.Exits() {
+		if vis[ex.P] {
+			path = q.PathTo(ex.P)
+		}
+	}
+	r.ObPath("C12.R2.complete", "sync volunteers the members the initiator does not know on every path", posOf(p, volLoop), path == nil,
+		"a return is reachable without the pass over the local members: with incomparable views the initiator never learns the members only the peer knows", path)
+	// (b) no iteration of the digest loop ends before the local record was looked up and compared
+	isCompare := func(n ast.Node) bool {
+		found := false
+		inspectNoLit(n, func(y ast.Node) bool {
+			if call, ok := y.(*ast.CallExpr); ok {
+				if f := CalleeFunc(fn, call); f != nil && (f.Name() == "OlderThan" || f.Name() == "YoungerThan") {
+					found = true
+				}
+			}
+			if be, ok := y.(*ast.UnaryExpr); ok && be.Op == token.NOT {
+				if o := objOf(fn, be.X); o != nil && o.Name() == "ok" {
+					found = true
+				}
+			}
+			return true
+		})
+		return found
+	}
+	var body Point
+	for _, b := range c.G.Blocks {
+		if b.Stmt == ast.Stmt(digLoop) && b.Kind.String() == "RangeBody" {
+			body = Point{b, -1}
+		}
+	}
+	if body.B == nil {
+		r.Undecide("C12.R2.complete: digest loop body block not found")
+		return
+	}
+	pth := c.leavesWithout(body, digLoop, nil, isCompare)
+	r.ObPath("C12.R2.complete", "every received digest is compared with the local record", posOf(p, digLoop), pth == nil,
+		"an iteration of the digest loop ends before the comparison: that member's fresher local record is never handed back and a fresher remote one is never requested", pth)
 }
